@@ -36,3 +36,24 @@ def from_file(rng, o, d, c):
     dl, cm = bytes([d]), bytes([c])
     ls = grammar.gen_file(rng, dl, cm, maxlines=10)
     return ls, dl, cm
+
+def compact_file(rng, d, c):
+    """a dense conventional file: entries directly below each other, many of them
+    without value (stored as a missing value), few comments — the shape in which a
+    writer that changes the text of value-less keys shows"""
+    dl, cm = bytes([d]), bytes([c])
+    out = []
+    for _ in range(rng.randrange(2, 9)):
+        r = rng.random()
+        if r < 0.12: out.append(b"[" + rng.choice([b"main", b"A", b"B b"]) + b"]")
+        elif r < 0.17: out.append(cm + b" note")
+        elif r < 0.2: out.append(b"")
+        else:
+            k = grammar.key(rng, dl, cm)
+            r2 = rng.random()
+            if r2 < 0.4: v = b""
+            elif r2 < 0.5: v = b'""'
+            else: v = grammar.plain_value(rng, dl, cm, grammar.cls(dl))
+            sep = dl if d == 32 else rng.choice([dl, b" " + dl + b" "])
+            out.append(k + sep + v + (b" " + cm + b"tc" if rng.random() < 0.1 else b""))
+    return b"\n".join(out) + b"\n"
